@@ -51,7 +51,8 @@ type Result struct {
 
 type runState struct {
 	sc    *Scenario
-	m     *Model
+	m     *Model   // declared graph of g0
+	ms    []*Model // declared graph per graph (construction calls can be per graph)
 	res   *Result
 	ng    int
 	unit  time.Duration
@@ -64,7 +65,7 @@ type runState struct {
 	inFn       [][]bool
 	executing  []int
 	lastExitVC []simrt.VC // per graph: clock of the latest task exit (serial HB)
-	taskActive []int      // per *Task, across graphs
+	taskActive [][2]int   // per *Task object (id, primary/alternate), across graphs
 	runErr     []error
 	returned   []bool
 	retSeq     []uint64
@@ -116,7 +117,14 @@ func isSkip(res string) bool { return res == "skip" || res == "skipw" }
 
 // checkable reports whether the ordering/reporting oracles apply: the declared graph is free of
 // definition errors and acyclic (DESIGN §4.1).
-func (r *runState) checkable() bool { return r.m.DefErrors == 0 && !r.m.Cyclic }
+func (r *runState) checkable() bool {
+	for _, m := range r.ms {
+		if m.DefErrors != 0 || m.Cyclic {
+			return false
+		}
+	}
+	return true
+}
 
 type simWriter struct {
 	r *runState
@@ -125,6 +133,7 @@ type simWriter struct {
 
 func (w *simWriter) Write(p []byte) (int, error) {
 	r := w.r
+	simrt.Lock()
 	seq := simrt.Note("write-begin", fmt.Sprintf("g%d %d bytes", w.g, len(p)))
 	if r.inWrite[w.g] {
 		r.fail("C15", "O15d", seq, "two Write calls on the output writer of graph g%d overlap", w.g)
@@ -134,22 +143,46 @@ func (w *simWriter) Write(p []byte) (int, error) {
 	total := len(p)
 	if r.sc.Writer.Yield {
 		r.res.Faults["writer_yield"]++
+		simrt.Unlock()
 		simrt.Yield()
+		simrt.Lock()
 		if len(p) > 1 { // a writer that consumes its input in two steps
 			r.writes[w.g].Write(p[:len(p)/2])
 			p = p[len(p)/2:]
+			simrt.Unlock()
 			simrt.Yield()
+			simrt.Lock()
 		}
 	}
 	r.writes[w.g].Write(p)
 	r.inWrite[w.g] = false
 	simrt.Note("write-end", "")
+	simrt.Unlock()
 	return total, nil
+}
+
+// deadlineCtx behaves like a context.WithDeadline/WithTimeout context whose expiry instant is
+// decided by the scenario: Done() is the embedded cancel context's channel (so the standard library
+// still recognises it as one of its own and starts no watcher goroutine), Err() reports
+// DeadlineExceeded once it is closed.
+type deadlineCtx struct{ context.Context }
+
+func (d deadlineCtx) Err() error {
+	if d.Context.Err() != nil {
+		return context.DeadlineExceeded
+	}
+	return nil
+}
+
+func (d deadlineCtx) Deadline() (time.Time, bool) {
+	return time.Date(2026, 1, 2, 0, 0, 0, 0, time.UTC), true
 }
 
 type logSink struct{ r *runState }
 
 func (l logSink) Write(p []byte) (int, error) {
+	simrt.Lock()
+	defer simrt.Unlock()
 	l.r.logLines++
 	if l.r.sc.LogErr {
 		l.r.res.Faults["log_writer_error"]++
@@ -162,6 +195,21 @@ func chunkText(g, task, attempt, c int) string {
 	return fmt.Sprintf("<g%d t%02d #%d c%d>", g, task, attempt, c)
 }
 
+var bigPad = strings.Repeat("0123456789abcdef", 70*1024/16)
+
+// attemptOutput is what attempt k of a task writes, chunk by chunk.
+func attemptOutput(a AttemptSpec, g, task, attempt int) []string {
+	var out []string
+	for c := 0; c < a.Chunks; c++ {
+		s := chunkText(g, task, attempt, c)
+		if c == 0 && a.Big {
+			s += bigPad + "</big>"
+		}
+		out = append(out, s)
+	}
+	return out
+}
+
 // Execute runs one scenario under the given chooser and evaluates every oracle.
 func Execute(sc *Scenario, ch simrt.Chooser, keepTrace bool) *Result {
 	res := &Result{Faults: map[string]int{}, Probes: map[string]int{}}
@@ -169,7 +217,16 @@ func Execute(sc *Scenario, ch simrt.Chooser, keepTrace bool) *Result {
 	if r.ng < 1 {
 		r.ng = 1
 	}
+	for g := 0; g < r.ng; g++ {
+		r.ms = append(r.ms, sc.ModelFor(g))
+	}
 	ng, n := r.ng, sc.N
+	if simrt.RealRuntime {
+		// real clock: a poll tick of 200µs keeps task durations (0..400 ticks) between 0 and 80 ms
+		sc = cloneScenario(sc)
+		sc.TickNS = 200_000
+		r.sc = sc
+	}
 	r.unit = time.Duration(sc.TickNS)
 	if r.unit <= 0 {
 		r.unit = 1
@@ -187,7 +244,7 @@ func Execute(sc *Scenario, ch simrt.Chooser, keepTrace bool) *Result {
 	}
 	r.executing = make([]int, ng)
 	r.lastExitVC = make([]simrt.VC, ng)
-	r.taskActive = make([]int, n)
+	r.taskActive = make([][2]int, n)
 	r.runErr = make([]error, ng)
 	r.returned = make([]bool, ng)
 	r.retSeq = make([]uint64, ng)
@@ -258,6 +315,8 @@ func Execute(sc *Scenario, ch simrt.Chooser, keepTrace bool) *Result {
 }
 
 func (r *runState) doCancel(cancel context.CancelFunc, kind string) {
+	simrt.Lock()
+	defer simrt.Unlock()
 	if r.cancelSeq == 0 {
 		r.cancelSeq = simrt.Note("cancel", kind)
 		r.histAdd("cancel " + kind)
@@ -269,13 +328,15 @@ func (r *runState) doCancel(cancel context.CancelFunc, kind string) {
 	cancel()
 }
 
-func (r *runState) taskFn(i int, cancel context.CancelFunc) getoptions.CommandFn {
+func (r *runState) taskFn(i, alt int, cancel context.CancelFunc) getoptions.CommandFn {
 	sc := r.sc
 	return func(ctx context.Context, opt *getoptions.GetOpt, args []string) error {
 		g := 0
 		if len(args) > 0 && args[0] == "g1" {
 			g = 1
 		}
+		m := r.ms[g]
+		simrt.Lock()
 		vc := simrt.Clock()
 		k := r.attempts[g][i]
 		r.attempts[g][i]++
@@ -287,7 +348,7 @@ func (r *runState) taskFn(i int, cancel context.CancelFunc) getoptions.CommandFn
 		if k < len(as) {
 			a = as[k]
 		}
-		R := r.m.Retries[i]
+		R := m.Retries[i]
 
 		// ---- online oracles ----
 		if r.inFn[g][i] {
@@ -305,7 +366,7 @@ func (r *runState) taskFn(i int, cancel context.CancelFunc) getoptions.CommandFn
 					r.fail("C13", "O13c", seq, "g%d t%02d: attempt %d does not happen-after attempt %d", g, i, k+1, k)
 				}
 			}
-			for _, d := range r.m.Deps[i] {
+			for _, d := range m.Deps[i] {
 				if r.finalRes[g][d] != "ok" || r.inFn[g][d] {
 					r.fail("C13", "O13a", seq, "g%d t%02d entered but its dependency t%02d has not returned nil (last result %q, running=%v)", g, i, d, r.finalRes[g][d], r.inFn[g][d])
 				} else if !simrt.Leq(r.exitVC[g][d], vc) {
@@ -331,32 +392,44 @@ func (r *runState) taskFn(i int, cancel context.CancelFunc) getoptions.CommandFn
 		if sc.Serial && r.lastExitVC[g] != nil && !simrt.Leq(r.lastExitVC[g], vc) {
 			r.fail("C15", "O15b", seq, "g%d serial: entry of t%02d does not happen-after the previous task's return", g, i)
 		}
-		r.taskActive[i]++
-		if r.taskActive[i] > 1 {
-			r.fail("C15", "O15c", seq, "shared Task t%02d is executing %d times at once (graphs run concurrently)", i, r.taskActive[i])
+		r.taskActive[i][alt]++
+		if r.taskActive[i][alt] > 1 {
+			r.fail("C15", "O15c", seq, "the function of shared Task object t%02d%s is executing %d times at once (graphs run concurrently)", i, []string{"", "'"}[alt], r.taskActive[i][alt])
 		}
-		if r.taskActive[i] == 1 && r.ng == 2 && r.attempts[1-g][i] > 0 {
+		if alt == 1 {
+			r.res.Probes["alternate_task_object_executed"]++
+		}
+		if r.taskActive[i][alt] == 1 && r.ng == 2 && r.attempts[1-g][i] > 0 {
 			r.res.Probes["shared_task_ran_in_both_graphs"]++
 		}
+
+		simrt.Unlock()
 
 		// ---- behaviour ----
 		if a.Cancel == "entry" {
 			r.doCancel(cancel, "cancel_in_task")
 		}
 		if sc.Buffer {
-			for c := 0; c < a.Chunks; c++ {
+			for c, text := range attemptOutput(a, g, i, k) {
 				w := dag.Stdout(ctx)
 				if c%2 == 1 {
 					w = dag.Stderr(ctx)
 				}
-				io.WriteString(w, chunkText(g, i, k, c))
+				io.WriteString(w, text)
 				if c+1 < a.Chunks {
 					simrt.Yield()
 				}
 			}
+			if a.Big && a.Chunks > 0 {
+				simrt.Lock()
+				r.res.Faults["big_output"]++
+				simrt.Unlock()
+			}
 		}
 		if a.Dur >= 40 {
+			simrt.Lock()
 			r.res.Faults["stall_task"]++
+			simrt.Unlock()
 		}
 		simrt.EnvSleep(time.Duration(a.Dur) * r.unit)
 		if a.Cancel == "exit" {
@@ -364,12 +437,14 @@ func (r *runState) taskFn(i int, cancel context.CancelFunc) getoptions.CommandFn
 		}
 
 		// ---- exit ----
+		simrt.Lock()
+		defer simrt.Unlock()
 		r.finalRes[g][i] = a.Res
 		r.exitVC[g][i] = simrt.Clock()
 		r.lastExitVC[g] = r.exitVC[g][i]
 		r.inFn[g][i] = false
 		r.executing[g]--
-		r.taskActive[i]--
+		r.taskActive[i][alt]--
 		xseq := simrt.Note("exit", fmt.Sprintf("g%d t%02d #%d %s", g, i, k, a.Res))
 		r.histAdd(fmt.Sprintf("exit g%d t%02d #%d %s", g, i, k, a.Res))
 		switch a.Res {
@@ -409,10 +484,21 @@ func (r *runState) main() {
 	dag.Logger = log.New(logSink{r}, "", 0)
 	ctx, cancel := context.WithCancel(context.Background())
 	defer cancel()
+	if sc.Cancel.Deadline {
+		ctx = deadlineCtx{ctx}
+	}
 
 	tasks := make([]*dag.Task, n)
+	alts := make([]*dag.Task, n) // a second, distinct Task object per id (same ID, same behaviour)
 	for i := 0; i < n; i++ {
-		tasks[i] = dag.NewTask(fmt.Sprintf("t%02d", i), r.taskFn(i, cancel))
+		tasks[i] = dag.NewTask(fmt.Sprintf("t%02d", i), r.taskFn(i, 0, cancel))
+		alts[i] = dag.NewTask(fmt.Sprintf("t%02d", i), r.taskFn(i, 1, cancel))
+	}
+	pick := func(c Call) *dag.Task {
+		if c.Alt {
+			return alts[c.T]
+		}
+		return tasks[c.T]
 	}
 	graphs := make([]*dag.Graph, ng)
 	for g := 0; g < ng; g++ {
@@ -428,21 +514,24 @@ func (r *runState) main() {
 			gr.SetOutputBuffer(&simWriter{r, g})
 		}
 		for _, c := range sc.Build {
+			if c.Only != 0 && c.Only != g+1 {
+				continue
+			}
 			switch c.Op {
 			case "add":
 				if c.Via == "graph" {
 					gr.AddTask(gr.Task(fmt.Sprintf("t%02d", c.T)))
 				} else {
-					gr.AddTask(tasks[c.T])
+					gr.AddTask(pick(c))
 				}
 			case "dep":
 				ds := make([]*dag.Task, len(c.Deps))
 				for j, d := range c.Deps {
 					ds[j] = tasks[d]
 				}
-				gr.TaskDependsOn(tasks[c.T], ds...)
+				gr.TaskDependsOn(pick(c), ds...)
 			case "retries":
-				gr.TaskRetries(tasks[c.T], c.R)
+				gr.TaskRetries(pick(c), c.R)
 			case "lookup":
 				gr.Task(fmt.Sprintf("t%02d", c.T))
 			case "addnil":
@@ -489,7 +578,9 @@ func (r *runState) main() {
 		g := g
 		simrt.GoNamed(fmt.Sprintf("run:g%d", g), func() {
 			name := fmt.Sprintf("g%d", g)
-			r.runErr[g] = graphs[g].Run(ctx, nil, []string{name})
+			err := graphs[g].Run(ctx, nil, []string{name})
+			simrt.Lock()
+			r.runErr[g] = err
 			r.returned[g] = true
 			r.retSlp[g] = simrt.SleepCount(name2run(g))
 			r.snapAtt[g] = append([]int(nil), r.attempts[g]...)
@@ -498,6 +589,7 @@ func (r *runState) main() {
 			r.snapNEnt[g] = len(r.entries)
 			r.retSeq[g] = simrt.Note("run-return", name)
 			r.histAdd("return " + name + fmt.Sprint(r.runErr[g] == nil))
+			simrt.Unlock()
 			simrt.Send(fin, g)
 		})
 	}
@@ -596,7 +688,7 @@ func (r *runState) noneExecuting() bool {
 }
 
 func (r *runState) posthocGraph(g int) {
-	sc, m, res := r.sc, r.m, r.res
+	sc, m, res := r.sc, r.ms[g], r.res
 	n := sc.N
 	// O16d DepthFirstSort (observed before the run)
 	if r.checkable() {
@@ -796,13 +888,18 @@ func (r *runState) posthocGraph(g int) {
 			if a.Chunks == 0 {
 				continue
 			}
-			want := ""
-			for c := 0; c < a.Chunks; c++ {
-				want += chunkText(g, e.task, e.attempt, c)
-			}
+			want := strings.Join(attemptOutput(a, g, e.task, e.attempt), "")
 			if strings.Count(out, want) != 1 {
-				r.fail("C15", "O15d", r.retSeq[g], "g%d: output of t%02d attempt %d is not one contiguous block in the writer's stream (wanted %q once in %q)", g, e.task, e.attempt+1, want, out)
+				r.fail("C15", "O15d", r.retSeq[g], "g%d: output of t%02d attempt %d is not one contiguous block in the writer's stream (wanted %s once in %s)", g, e.task, e.attempt+1, abbrev(want), abbrev(out))
 			}
 		}
 	}
+}
+
+func abbrev(s string) string {
+	s = strings.ReplaceAll(s, bigPad, "[70KiB]")
+	if len(s) > 600 {
+		s = s[:600] + "..."
+	}
+	return fmt.Sprintf("%q", s)
 }
